@@ -1409,6 +1409,20 @@ func scenC07(g *Gen, dir string) ([]*Op, func(e *Env, i int, op *Op, obs []strin
 	case 2: // unrecognised signature format
 		ops = append(ops, &Op{Kind: "add", T: TOpt{Kind: "det"}, DI: sigObjectDI(pick(r, [][]byte{[]byte("not a signature"), {}, []byte("{}"), []byte("-----BEGIN PGP SIGNED MESSAGE-----\n")}), 1, 0, 1, nil, 0)})
 		g.count("variant:unrecognised-format")
+	case 7: // the same entity signs the group twice; the second signature's descriptor is rewritten to name somebody else
+		if s.PGP >= 0 && len(u.PGP) > 1 {
+			nsig := int64(1)
+			for _, o := range ops {
+				if o.Kind == "sign" {
+					nsig++
+				}
+			}
+			nsig-- // signatures present so far (one per sign op on group 1)
+			other := (s.PGP + 1 + r.Intn(len(u.PGP)-1)) % len(u.PGP)
+			ops = append(ops, &Op{Kind: "sign", S: SOpts{PGP: s.PGP, Groups: []uint32{1}, T: TOpt{Kind: "det"}, NoSalt: true}},
+				&Op{Kind: "patch", Sites: []PatchSite{{Off: 4096 + 585*(int64(nobj)+nsig) + 201 + 4, B: u.PGP[other].PrimaryKey.Fingerprint}}})
+			g.count("variant:signed-twice-second-descriptor-names-another")
+		}
 	case 6: // a co-signature whose envelope carries one more "signatures" entry that is no signature; one Verifier sees it, then sees it gone
 		if s.PGP < 0 {
 			var other []int
